@@ -423,14 +423,22 @@ class TStruct(T):
             ctx.h.add(*ctx.h.array_literal(arr, enc))
             ctx.h.add("let %s: %s = cbor_deserialize(&%s).ok().unwrap();" % (v, self.rust, arr))
             return v
+        wrap = getattr(ctx, "wrap_variant", None) if getattr(ctx, "wrap_schema", None) is self else None
         if self.ctor[0] == "default":
-            ctx.h.add("let mut %s = <%s>::default();" % (v, self.rust))
+            init = "<%s>::default()" % self.rust
             skip = ()
         else:
             _, bpath, bfields = self.ctor
             parts = ["%s: %s" % (bf, self.field(bf).ty.build(ctx, m[bf])) for bf in bfields]
-            ctx.h.add("let mut %s = %s { %s }.build();" % (v, bpath, ", ".join(parts)))
+            init = "%s { %s }.build()" % (bpath, ", ".join(parts))
             skip = bfields
+        if wrap:
+            # build the value directly inside the ctap2::Response variant and fill it in place: moving a
+            # finished 1.5 KB response into the enum makes CBMC lose the Option discriminants (DESIGN section 2)
+            ctx.h.add("let mut resp = Response::%s(%s);" % (wrap, init))
+            ctx.h.add("let Response::%s(%s) = &mut resp else { return; };" % (wrap, v))
+        else:
+            ctx.h.add("let mut %s = %s;" % (v, init))
         for f in self.fields:
             if f.rust in skip or f.private:
                 continue
